@@ -81,6 +81,11 @@ type Options struct {
 	// running jobs record "_errors: Caught signal terminated", as mrjob does
 	// on SIGTERM, instead of vanishing without a trace.
 	JobsCatchSignal bool
+	// Stragglers: monitors of a previous incarnation's jobs that are still
+	// alive; each records "Caught signal terminated" (in ITS directory, under
+	// ITS journal name) right after this incarnation has started the next
+	// attempt of the same job.
+	Stragglers []core.VerifStraggler
 	// Retries is mrp's --autoretry: how many times a failure that
 	// Pipestance.IsErrorTransient accepts is answered by a restart.
 	Retries int
@@ -167,6 +172,9 @@ type Result struct {
 	SignalDelay   int
 	// CaughtSignal: jobs whose monitor recorded the signal (JobsCatchSignal).
 	CaughtSignal []string
+	// Running: the monitors alive when the process died (Options.Stragglers
+	// of a later incarnation).
+	Running []core.VerifStraggler
 	// Retried counts the automatic restarts after transient failures.
 	Retried int
 	// Zombies counts stale attempts that completed late (Options.Zombie).
@@ -602,6 +610,12 @@ func Run(p *progen.Program, sched Schedule, opts Options) (res *Result) {
 			}
 			if j.Step == 0 {
 				h.JobStart(j, pid)
+				for si, sg := range opts.Stragglers {
+					if sg.Key == j.Key() && sg.ErrorsPath != "" {
+						sg.Write()
+						opts.Stragglers[si].ErrorsPath = ""
+					}
+				}
 				if zs := zombies[j.Key()]; len(zs) > 0 {
 					// an earlier attempt is still alive and finishes now,
 					// one run-loop iteration before this attempt does
@@ -744,6 +758,9 @@ func Run(p *progen.Program, sched Schedule, opts Options) (res *Result) {
 			res.Stalled = true
 			break
 		}
+	}
+	if crashed {
+		res.Running = h.RunningJobs()
 	}
 	if crashed && opts.JobsCatchSignal {
 		res.CaughtSignal = h.JobsCatchSignal()
